@@ -151,6 +151,20 @@ func c13extra(p *Program, r *Report, scope []*ssa.Function, inScope map[*ssa.Fun
 	r.Floor("C13.fresh", 1)
 
 	gcsWriterRule(p, r, "C13.writer")
+	gcsQueryRule(p, r, NewEffects(p), "C13.frozen")
+	r.Floor("C13.frozen", 8)
+	// C13.bounds: a query answers, it does not panic (the panic-freedom obligations of C08 for the query methods)
+	{
+		var roots []*ssa.Function
+		for _, m := range p.Methods("gcs", "Filter") {
+			switch m.Name() {
+			case "Match", "MatchAny", "ZipMatchAny", "HashMatchAny":
+				roots = append(roots, m)
+			}
+		}
+		c08Scope(p, r, p.Reachable(roots), "C13.bounds")
+		r.Floor("C13.bounds", 5)
+	}
 }
 
 // gcsWriterRule: the Golomb-Rice writer of the filter builder (shared by C13 and C14).
